@@ -1,7 +1,7 @@
 T = "GeomV.C13."
 CFG = {
     "id": "C13",
-    "lean_modules": ["GeomV.C13.Proofs", "GeomV.C13.Ties", "GeomV.C13.ProofsMeet"],
+    "lean_modules": ["GeomV.C13.Proofs", "GeomV.C13.Ties", "GeomV.C13.ProofsMeet", "GeomV.C13.ProofsRing", "GeomV.C13.ProofsTie"],
     "exe": "geomv_c13",
     "go_cmd": "c13",
     "stages": ["go:gen", "go:impl", "lean:judge"],
@@ -15,6 +15,7 @@ CFG = {
         "C13_findIntersection_collinear", "C13_findIntersection_collinear_bias",
         "C13_ring_closing_guard_vacuous", "C13_ring_simplicity_not_preserved",
         "C13_simple_collinear_ordered", "C13_genPos_imp_colOrdered",
+        "C13_ring_open_chain_simple", "C13_polygon_open_chains_simple", "C13_neartie_band_sound",
     ]],
     "trusted_base": [
         "Lean 4.33.0 kernel; axioms of every theorem printed by #print axioms must be within {propext, Classical.choice, Quot.sound}",
@@ -22,7 +23,9 @@ CFG = {
         "outputs are sub-lists of the input and are compared exactly on every generated case",
         "IEEE-754 rounding is modelled, not verified: on the generator's integer grids every product in findIntersection is exact and every "
         "distance test the model makes is re-evaluated with a bit-exact float replica of distPointToSegment; cases where float and exact "
-        "disagree (or |d^2-tol^2| <= 1e-9 tol^2) are classed `-neartie` and not compared",
+        "disagree (or |d^2-tol^2| <= 1e-9 tol^2) are classed `-neartie` and not compared; outside the band |df-tol| <= 1e-6 tol the float "
+        "decision equals the model's when the rounding error of the squared distance is within (eps/2)(d^2+tol^2) (C13_neartie_band_sound); "
+        "that budget is measured for every replayed distance test of curves up to 64 vertices (a test outside it makes the case a near-tie)",
         "T1: harness/cmd/c13/extract.go (go/ast + go/constant, ~550 lines) regenerates lean/GeomV/C13/Gen.lean (pointSubtract, dot, norm, d, "
         "distPointToSegment, lengthToOrigin, findIntersection2, findIntersection[first result]) from the tree under test on every run; "
         "Ties.lean proves each equal to the model function (lengths through their squares); the symbolic treatment of math.Sqrt "
